@@ -2,6 +2,7 @@
 not a plain identifier - or that is a keyword - between backticks.
 
 Table unit (rows are generated from the source on every run; what is checked is a syntactic fact, stated as such):
+  prqlc/prqlc-parser/src/parser/pr/ident.rs  display_ident_part: the nested fns forbidden_start / forbidden_subsequent (whole; real code, not a table)
   prqlc/prqlc/src/codegen/ast.rs   every use of `var_def.name`, `type_def.name`, `module_def.name` (outside tests), and the name of a named argument in the
                                    `for (name, arg) in &func_call.named_args { .. }` loop
 """
@@ -10,18 +11,23 @@ import re
 from extract import ExtractionError, code_tokens, match_brace
 
 AST = "prqlc/prqlc/src/codegen/ast.rs"
+IDENT = "prqlc/prqlc-parser/src/parser/pr/ident.rs"
 
-LABELS = []
-FUNCTIONS = []
+LABELS = ["IS1", "IS2", "IS3"]
+FUNCTIONS = ["forbidden_start", "forbidden_subsequent"]
 RLIMIT = 30
 
 ASSUMED = [
     {"what": "the scan is textual: a name that reaches the output through another binding (`let n = &var_def.name; .. n ..`) is not seen; write_ident_part itself is under "
              "contract in unit prql_prec (FP2 / FP3: it quotes keywords and everything the identifier regex rejects)", "keys": []},
+    {"what": "char::is_ascii_alphabetic / is_ascii_digit are [A-Za-z] / [0-9] (ascii_alpha / ascii_digit)", "keys": ["fn is_ascii_alphabetic_c", "fn is_ascii_digit_c"]},
 ]
 TRUSTED = [
     "oracle (C14): formatting keeps the program: a name written with backticks because it has a space, starts with a digit or is a keyword (`let `my table` = ..`, "
     "`module `my mod` { .. }`, `into `my out``, `f `x y`:1 2`) must be printed with them, else the output does not parse or parses as something else",
+    "oracle (C14), characters: the lexer's ident_part starts a plain name with a letter or `_` and continues it with letters, digits and `_`; `$` starts a PARAMETER token. "
+    "So a name may be printed bare only if its first character is a letter or `_` (IS1: in particular not `$`) and the others are letters, digits or `_` (IS2); ordinary "
+    "names stay bare (IS3)",
 ]
 
 SITES = [("var_def.name", r"\bvar_def\.name\b"), ("type_def.name", r"\btype_def\.name\b"), ("module_def.name", r"\bmodule_def\.name\b")]
@@ -65,7 +71,29 @@ def build(X):
     rows = _rows(X)
     f = X.fn(AST, "write_ident_part")
     f.rewrites.append({"rule": "table", "what": "%d places where codegen/ast.rs prints a name: one row each (is the name an argument of write_ident_part?)" % len(rows)})
-    lines = ["", "#![allow(unused_imports, dead_code)]", "use vstd::prelude::*;", "verus! {"]
+    fs_ = X.fn(IDENT, "forbidden_start").pub_all()
+    fsub = X.fn(IDENT, "forbidden_subsequent").pub_all()
+    for it in (fs_, fsub):
+        it.rewrite_re("R1", r"//[^\n]*\n", "\n", count=None, why="comments")
+        it.rewrite_re("R5", r"\bc\.is_ascii_alphabetic\(\)", "is_ascii_alphabetic_c(c)", count=None, why="char::is_ascii_alphabetic")
+        it.rewrite_re("R5", r"\bc\.is_ascii_digit\(\)", "is_ascii_digit_c(c)", count=None, why="char::is_ascii_digit")
+        it.ret_name("r")
+    fs_.contract("""
+        ensures
+            // a name that is printed bare starts with a letter or `_` (not with `$`, which starts a parameter) ..
+            !r ==> (ascii_alpha(c) || c == '_'), // @IS1
+            // .. and ordinary names stay bare
+            (ascii_alpha(c) || c == '_') ==> !r, // @IS3
+    """)
+    fsub.contract("""
+        ensures !r ==> (ascii_alpha(c) || ascii_digit(c) || c == '_'), // @IS2
+    """)
+    lines = ["", "#![allow(unused_imports, dead_code)]", "use vstd::prelude::*;", "verus! {",
+             "pub open spec fn ascii_alpha(c: char) -> bool { ('a' <= c && c <= 'z') || ('A' <= c && c <= 'Z') }",
+             "pub open spec fn ascii_digit(c: char) -> bool { '0' <= c && c <= '9' }",
+             "#[verifier::external_body] pub fn is_ascii_alphabetic_c(c: char) -> (r: bool) ensures r == ascii_alpha(c), { unimplemented!() }",
+             "#[verifier::external_body] pub fn is_ascii_digit_c(c: char) -> (r: bool) ensures r == ascii_digit(c), { unimplemented!() }",
+             fs_.text, fsub.text]
     for lab, ok, line in rows:
         lines.append("proof fn row_%s() { assert(%s); } // @%s   (ast.rs:%d)" % (re.sub(r"\W", "_", lab), "true" if ok else "false", lab, line))
     lines += ["} // verus!", "fn main() {}", ""]
@@ -80,6 +108,7 @@ PROGRAMS = [
     "type `my ty` = int\nfrom t\n",
     "let f = a `x y`:1 -> a + `x y`\nfrom t\nselect {y = (f `x y`:2 a)}\n",
     "let `let` = (from t)\nfrom `let`\n",
+    "from sales\nselect {region, `a$b`, `$x`, `x$`}\n",
 ]
 
 
